@@ -120,6 +120,7 @@ let st : storage ref = ref init_storage
 let st_k = ref 4
 let st_cfg = ref { c_dup = true; c_maxrec = n_of_int 1000000; c_maxsize = n_of_int 1000000000 }
 let st_lazy = ref false
+let st_validate = ref false
 
 let meta_of = function
   | "-" -> (None, 8) | "m0" -> (Some 0, 8) | "m1" -> (Some 1, 26) | "m2" -> (Some 2, 53) | "m3" -> (Some 3, 350)
@@ -177,6 +178,7 @@ let cmd_cfg args =
       | ["maxrec"; v] -> st_cfg := { !st_cfg with c_maxrec = n_of_string v }
       | ["maxsize"; v] -> st_cfg := { !st_cfg with c_maxsize = n_of_string v }
       | ["init"; v] -> st_lazy := (v = "lazy")
+      | ["validate"; v] -> st_validate := (v = "1")
       | _ -> ()) args;
   emit "cfg"
 
@@ -226,9 +228,25 @@ let storage_handlers = [
   ("fail", (fun _ -> emit "fail armed"));
   ("clearfail", (fun _ -> emit "clearfail"));
   ("dirty", (fun _ -> emit "*"));
+  ("know", (fun _ -> emit "know"));
   ("flip", (fun _ -> emit "*"));
   ("patch", (fun _ -> emit "*"));
-  ("trunc", (fun _ -> emit "*"));
+  ("trunc", (function
+       | ["blob"; id; n] ->
+         (* crash model: the blob file is cut to n bytes; what does Blob::from_file make of it? (Blob/Scan.v) *)
+         let id = int_of_string id in
+         let all = closed_blobs !st @ (match !st.s_active with Some b -> [b] | None -> []) in
+         (match List.filter (fun b -> int_of_n b.b_id = id) all with
+          | b :: _ ->
+            let bytes = blob_file_bytes (n_of_int !st_k) b.b_recs in
+            let cut = List.filteri (fun i _ -> i < int_of_string n) bytes in
+            let r = blob_open_scan cut (n_of_int !st_k) !st_validate in
+            spec_pending := (match r with
+                | ROk hs -> Printf.sprintf "sc served %d" (List.length hs)
+                | RFail _ -> (match dispose r with DInitFails -> "sc initfails 0" | _ -> "sc quarantined 0"));
+            emit "*"
+          | [] -> emit "*")
+       | _ -> emit "*"));
   ("ls", (fun _ -> emit "*"));
   ("disk", (fun _ -> emit "*"));
   ("fsync", (fun _ -> emit "fsync ok"));
@@ -393,7 +411,7 @@ let main () =
   let n = Array.length Sys.argv in
   let i = ref 1 in
   while !i + 1 < n do
-    tainted := false; pending_evs := []; Hashtbl.reset probes; Hashtbl.reset blooms; Hashtbl.reset raws; st := init_storage; st_k := 4; st_lazy := false;
+    tainted := false; pending_evs := []; Hashtbl.reset probes; Hashtbl.reset blooms; Hashtbl.reset raws; st := init_storage; st_k := 4; st_lazy := false; st_validate := false;
     st_cfg := { c_dup = true; c_maxrec = n_of_int 1000000; c_maxsize = n_of_int 1000000000 };
     run_script Sys.argv.(!i) Sys.argv.(!i + 1);
     i := !i + 2
